@@ -125,7 +125,7 @@ def finish(res, pc, lines, prop, seed, mode, partial=False):
 
 
 def run(ctx, prop):
-    nprog = ctx.n(10000, 300000)
+    nprog = ctx.n(30000, 400000)
     per = max(1, nprog // core.NCPU)
     jobs = []
     for mode in (0, 1):
